@@ -105,6 +105,19 @@ class GSum(object):
         return self._key
 
     def bv(self):
+        if self._bv is None and self.w == 64:
+            rng = self.range(True)
+            if rng is not None:
+                # small values: add at the width the range needs and sign-extend (much cheaper to bit-blast)
+                nb = max(abs(rng[0]), abs(rng[1])).bit_length() + 2
+                if nb < 40:
+                    acc = None
+                    for k, (g, c) in sorted(self.terms.items(), key=lambda kv: kv[0]):
+                        t = z3.If(g, z3.BitVecVal(canon(c, 64, True), nb), z3.BitVecVal(0, nb))
+                        acc = t if acc is None else acc + t
+                    if self.const:
+                        acc = acc + z3.BitVecVal(canon(self.const, 64, True), nb)
+                    self._bv = z3.SignExt(64 - nb, acc)
         if self._bv is None:
             w = self.w
             items = sorted(self.terms.items(), key=lambda kv: kv[0])
